@@ -91,6 +91,13 @@ def step (s : St) (ws : List String) : St × String :=
   | [t, "sv"] => match t.toNat? with
     | some t => let s := doOp s t .softView 0; (s, storLine s)
     | none => (s, "bad-op")
+  | [t, "nsf", a, f] =>                -- Stack constructor of stack number a in thread t whose f-th array allocation fails
+    match t.toNat?, a.toNat?, f.toNat?, Ctor.generatedOrder with
+    | some t, some a, some f, some ord =>
+      let r := Ctor.construct ord (a + 1) true (Ctor.faultStepOfAlloc ord f) (getPtr s.cfg s.w t)
+      let s' := { s with w := setPtr s.cfg s.w t r.ptr }
+      (s', (if r.failed then "fail " else "ok ") ++ ptrLine s' t)
+    | _, _, _, _ => (s, "bad-op")
   | [t, op, a] =>
     match t.toNat?, a.toNat? with
     | some t, some a =>
